@@ -227,6 +227,66 @@ def direct_elements(fails, rng, n, only=None):
                 fails.add("C14:natural-not-abundance-sum", "Sample(%r) differs from the abundance-weighted isotopes" % el.symbol, **where)
 
 
+SAMPLE_FORMULAS = ["Ni[58]Ni4", "Li[6]Li3F4", "DHO", "C3D4H4O", "20%wt Dy[164] // Dy2O3", "Eu[151]Eu", "B[10]B3C",
+                   "Cu[63]Cu[65]Cu", "Gd[155]Gd2O3", "Co[59]Co", "Co30Fe70", "NaCl", "H2O", "50%wt Au[197]Au // Ag",
+                   "50%vol Co[59]@8.9 // Co@8.9", "In[115]In2O3", "Ag[107]Ag[109]AgCl"]
+
+
+def direct_samples(fails, rng, n, only=None):
+    """all sample formulas, in particular formulas in which the same nuclide arrives more than once (labelled and
+    through the natural element): the activation of the whole sample is, product by product, the sum of the
+    activations of its mass_fraction constituents activated separately; and it is proportional to the sample mass"""
+    from periodictable import core, formulas as _f
+    forms = [only["formula"]] if only else SAMPLE_FORMULAS
+    for formula in forms:
+        for _ in range(n):
+            flu, expo, mass = logu(rng, 1e4, 1e15), logu(rng, 1e-2, 1e3), logu(rng, 1e-3, 1e2)
+            cd, fast = rng.choice([0.0, 1.0, logu(rng, 1, 1e3)]), rng.choice([0.0, logu(rng, 1, 1e3)])
+            if only:
+                flu, expo, mass, cd, fast = (only[k] for k in ("fluence", "exposure", "mass", "Cd_ratio", "fast_ratio"))
+            env = act.ActivationEnvironment(flu, cd, fast)
+            rest = (0, 1, 24, 360)
+            where = dict(formula=formula, mass=mass, fluence=flu, Cd_ratio=cd, fast_ratio=fast, exposure=expo, rest_times=list(rest))
+            s = act.Sample(formula, mass)
+            r = attempt(s.calculate_activation, env, exposure=expo, rest_times=rest)
+            if isinstance(r, BaseException):
+                fails.add("C14:sample-raises-%s" % type(r).__name__,
+                          "Sample(%r).calculate_activation raises %s: %s" % (formula, type(r).__name__, r), observed=repr(r), **where)
+                continue
+            got = {k: [float(x) for x in v] for k, v in s.activity.items()}
+            want, bad = {}, None
+            for el, frac in _f.formula(formula).mass_fraction.items():
+                if core.isisotope(el):
+                    parts = [(el, mass * frac)]
+                else:
+                    parts = [(el[a], mass * frac * el[a].abundance * 0.01) for a in el.isotopes]
+                for iso, m in parts:
+                    if not m:
+                        continue
+                    p = attempt(act.activity, iso, m, env, expo, rest)
+                    if isinstance(p, BaseException):
+                        bad = p
+                        break
+                    for k, v in p.items():
+                        w = want.setdefault(k, [0.0] * len(rest))
+                        want[k] = [a + float(b) for a, b in zip(w, v)]
+                if bad:
+                    break
+            if bad:
+                continue
+            if set(got) != set(want) or any(not all(close(a, b, 1e-12) for a, b in zip(got[k], want[k])) for k in got):
+                k = next((k for k in got if k not in want or not all(close(a, b, 1e-12) for a, b in zip(got[k], want[k]))), None)
+                fails.add("C14:sample-not-sum-of-constituents",
+                          "Sample(%r): activity of %s is %r, the constituents activated separately give %r"
+                          % (formula, (k.isotope + " -> " + k.daughter) if k is not None else "a missing product",
+                             got.get(k), want.get(k)), **where)
+            s2 = act.Sample(formula, mass * 4)
+            r2 = attempt(s2.calculate_activation, env, exposure=expo, rest_times=rest)
+            if isinstance(r2, BaseException) or set(s2.activity) != set(s.activity) or any(
+                    not all(close(4 * a, float(b), 1e-12) for a, b in zip(got[k], s2.activity[k])) for k in got):
+                fails.add("C14:sample-not-linear-in-mass", "Sample(%r) at 4 x mass is not 4 x the activation" % formula, **where)
+
+
 LABELS = [("Thermal", "thermalXS"), ("Resonance", "resonance"), ("in hr", "Thalf_hrs"), ("parent", "Thalf_parent"),
           ("thermal", "thermalXS_parent"), ("resonance", "resonance_parent"), ("Abund", "abundance")]
 
@@ -292,7 +352,9 @@ def main(argv):
         return
     if argv[1:2] == ["--sample"]:
         fails = Fails()
-        direct_elements(fails, random.Random(0), 1, only=json.loads(argv[2]))
+        only = json.loads(argv[2])
+        direct_elements(fails, random.Random(0), 1, only=only)
+        direct_samples(fails, random.Random(0), 1, only=only)
         json.dump(dict(cases=[], meta=[], direct_fails=fails), sys.stdout)
         return
     npts, seed = int(argv[1]), int(argv[2])
@@ -307,6 +369,7 @@ def main(argv):
             meta.append(describe(iso, j, ai, inp, rest, o))
             direct_case(fails, iso, j, ai, inp, rest, o, rng, full=(i < 12))
     direct_elements(fails, random.Random(seed + 17), 2 if npts <= 10 else 6)
+    direct_samples(fails, random.Random(seed + 29), 3 if npts <= 10 else 12)
     direct_table(fails)
     keys = ["%d|%d|%s|%s|%s" % (iso.number, iso.isotope, ai.daughter, ai.reaction, "y" if ai.fast else "n") for iso, j, ai in rows]
     json.dump(dict(cases=cases, meta=meta, direct_fails=fails, nrows=len(rows), row_keys=keys), sys.stdout)
